@@ -1,6 +1,8 @@
 package main
 
-// thorough tier: configuration sweep + checker self-validation (fixtures, mutant catalogue).
+// thorough tier: configuration sweep + positive controls (recorded property-breaking changes applied
+// to scratch copies of the current tree must be reported).
 func thorough(def *PropDef, c *Check, repo, verif, tags string, extra map[string]interface{}) {
 	sweepConfigs(def, c, repo, extra)
+	runControls(def, c, repo, verif, tags, extra)
 }
